@@ -11,6 +11,7 @@ import hashlib
 import json
 import os
 import random
+import re
 import struct
 from collections import deque
 
@@ -222,7 +223,14 @@ BOUNDARY_LABELS = ["kernel_530061", "kernel_12052549", "kernel_10079980", "kerne
 
 
 def label_text(k):
-    return BOUNDARY_LABELS[k - 900] if 900 <= k < 900 + len(BOUNDARY_LABELS) else "T%d" % k
+    # even label ids get a text with blanks and percent signs (legal in a label; the emulator has to carry it
+    # into the .pcf verbatim); odd ones the plain "T<k>"
+    if 900 <= k < 900 + len(BOUNDARY_LABELS):
+        return BOUNDARY_LABELS[k - 900]
+    return "T%d" % k if k % 2 else "T%d 100%% of it %%d" % k
+
+
+_LABEL_RE = re.compile(r"T(\d+)(?: 100% of it %d)?$")
 
 
 def concretise(e):
@@ -283,8 +291,9 @@ def type_label_map(tracedir):
         for ty in (11, 36):
             if ty in pcf.types:
                 for v, lab in pcf.types[ty][1].items():
-                    if lab.startswith("T") and lab[1:].isdigit():
-                        out[(ty, v)] = int(lab[1:])
+                    m = _LABEL_RE.match(lab.strip())
+                    if m:
+                        out[(ty, v)] = int(m.group(1))
     return out
 
 
